@@ -436,6 +436,8 @@ func runRound22b(c *Ctx, spec *PropSpec) {
 		tarsForwardNeverWritesTheRetainedPackage(c)
 	case "C05":
 		edfGivesUpOnlyWhenNobodyIsHealthy(c)
+	case "C06":
+		c06DrawMeasuredAgainstTheMergedTable(c)
 	case "C09":
 		http1GoAwayToldBeforeTheHandOver(c)
 	case "C11":
@@ -762,4 +764,110 @@ func sdsProviderSecretsNotWrittenFromTheContext(c *Ctx) {
 	}
 	c.Check(rule, funcKey(fn)+":secrets-not-written-from-the-context", fn.Pos(), bad == token.NoPos, "no store through p.info",
 		"sdsProvider.update stores into the provider's long-lived secret info (at "+c.pos(bad)+"): the provider is shared by every later manager of the listener, so a value taken from one context's configuration - its static ca_cert - outlives that configuration; after an update that removes ca_cert, client certificates of the removed CA are still accepted")
+}
+
+// ---------------------------------------------------------------------------------------------------------------------
+// C06.R14 (seed C06-16): every weight the weighted draw is measured against is a weight of the merged table. The draw is
+// taken over totalClusterWeight, the sum of the table getWeightedClusterEntry builds - in which a cluster listed twice
+// has one entry with the summed weight. A weight taken from anywhere else (the raw configuration's heaviest entry kept in
+// a field of its own) disagrees with the table exactly then: the cluster gets its raw share, the rest of its draws land
+// on its neighbours or fall off the scan. Clause: in RouteRuleImplBase.ClusterName every non-constant value that is
+// subtracted from, or compared with, a value derived from the draw is a clusterWeight read from an element of
+// rri.weightedClusters (range or look-up).
+func c06DrawMeasuredAgainstTheMergedTable(c *Ctx) {
+	const rule = "C06.R14"
+	c.Rule(rule, "the weighted draw is only ever measured against clusterWeight values read from the merged table rri.weightedClusters", 1)
+	fn := c.M("pkg/router", "RouteRuleImplBase", "ClusterName")
+	if fn == nil {
+		c.Unresolved(rule, "RouteRuleImplBase.ClusterName")
+		return
+	}
+	isDraw := func(v ssa.Value) bool {
+		cl, ok := v.(*ssa.Call)
+		return ok && strings.HasPrefix(methodName(cl.Common()), "Int63n") || ok && strings.HasPrefix(methodName(cl.Common()), "Intn")
+	}
+	fromTable := func(v ssa.Value) bool {
+		seen := map[ssa.Value]bool{}
+		var walk func(v ssa.Value, d int) bool
+		walk = func(v ssa.Value, d int) bool {
+			if v == nil || seen[v] || d > 12 {
+				return false
+			}
+			seen[v] = true
+			switch y := v.(type) {
+			case *ssa.Range:
+				_, f, _, isF := loadedField(y.X)
+				return isF && f == "weightedClusters"
+			case *ssa.Lookup:
+				_, f, _, isF := loadedField(y.X)
+				return isF && f == "weightedClusters"
+			case *ssa.Convert:
+				return walk(y.X, d+1)
+			case *ssa.ChangeType:
+				return walk(y.X, d+1)
+			case *ssa.Field:
+				return y.X.Type() != nil && walk(y.X, d+1)
+			case *ssa.FieldAddr:
+				return walk(y.X, d+1)
+			case *ssa.UnOp:
+				if y.Op == token.MUL {
+					if al, isA := y.X.(*ssa.Alloc); isA { // the range variable's cell (go 1.18: one cell per loop)
+						for _, r := range refs(al) {
+							if st, isS := r.(*ssa.Store); isS && st.Addr == ssa.Value(al) && walk(st.Val, d+1) {
+								return true
+							}
+						}
+						return false
+					}
+					return walk(y.X, d+1)
+				}
+			case *ssa.Alloc: // a local struct cell (the range variable): what is stored into it as a whole
+				for _, r := range refs(y) {
+					if st, isS := r.(*ssa.Store); isS && st.Addr == ssa.Value(y) && walk(st.Val, d+1) {
+						return true
+					}
+				}
+				return false
+			case *ssa.Extract:
+				return walk(y.Tuple, d+1)
+			case *ssa.Next:
+				return walk(y.Iter, d+1)
+			case *ssa.Phi:
+				for _, e := range y.Edges {
+					if !walk(e, d+1) {
+						return false
+					}
+				}
+				return len(y.Edges) > 0
+			}
+			return false
+		}
+		return walk(v, 0)
+	}
+	n := 0
+	ord := ordCounter{}
+	forEachInstr(fn, false, func(_ *ssa.Function, in ssa.Instruction) {
+		b, ok := in.(*ssa.BinOp)
+		if !ok {
+			return
+		}
+		var other ssa.Value
+		switch {
+		case derivesFrom(b.X, isDraw):
+			other = b.Y
+		case derivesFrom(b.Y, isDraw):
+			other = b.X
+		default:
+			return
+		}
+		if _, isK := other.(*ssa.Const); isK || derivesFrom(other, isDraw) {
+			return
+		}
+		n++
+		c.Check(rule, ord.next(fn, "weight-from-the-merged-table"), b.Pos(), fromTable(other), "the operand is read from an element of rri.weightedClusters",
+			"RouteRuleImplBase.ClusterName measures the draw against a weight that does not come from the merged table rri.weightedClusters: the draw range is the table's total, in which a cluster listed twice has one entry with the summed weight - a weight kept elsewhere (the raw configuration's heaviest entry) gives that cluster its raw share only, the other draws land on its neighbours or fall off the scan to the default cluster")
+	})
+	if n == 0 {
+		c.Unresolved(rule, "no operation on the draw in RouteRuleImplBase.ClusterName")
+	}
 }
